@@ -17,6 +17,14 @@ type RandomCfg struct {
 	BadPct   int // percentage of malformed operations
 	FlushPct int
 	ReusePct int // percentage of operations re-using an earlier id
+	AwarePct int // percentage of references chosen among keys already requested
+}
+
+// SmallRandomCfg is a small alphabet with state-aware reference selection, so
+// that installed chains, retargeting replaces and cross-instance references
+// are frequent.
+func SmallRandomCfg() RandomCfg {
+	return RandomCfg{NIs: []string{DefaultNI, "vrf1"}, LateNIs: []string{"late1"}, NH: 2, NHG: 2, Tops: 2, Len: 40, BadPct: 3, FlushPct: 6, AwarePct: 75}
 }
 
 func DefaultRandomCfg() RandomCfg {
@@ -32,6 +40,13 @@ func Random(rng *rand.Rand, c RandomCfg) []Input {
 	kinds := []string{"nh", "nh", "nhg", "nhg", "v4", "v4", "v6", "mpls"}
 	var id uint64
 	pick := func(n int) string { return fmt.Sprint(1 + rng.Intn(n)) }
+	haveNH, haveNHG := map[string][]string{}, map[string][]string{}
+	aware := func(have []string, n int) string {
+		if len(have) > 0 && rng.Intn(100) < c.AwarePct {
+			return have[rng.Intn(len(have))]
+		}
+		return pick(n)
+	}
 	for len(ins) < c.Len+1 {
 		r := rng.Intn(100)
 		switch {
@@ -85,7 +100,7 @@ func Random(rng *rand.Rand, c RandomCfg) []Input {
 			o.PL = abs.NHGPayloads[rng.Intn(len(abs.NHGPayloads))]
 			n := 1 + rng.Intn(3)
 			for i := 0; i < n; i++ {
-				o.NHs = append(o.NHs, pick(c.NH))
+				o.NHs = append(o.NHs, aware(haveNH[o.NI], c.NH))
 			}
 			if rng.Intn(4) == 0 {
 				o.BK = pick(c.NHG + 1)
@@ -93,16 +108,24 @@ func Random(rng *rand.Rand, c RandomCfg) []Input {
 		default:
 			o.Key = "k" + pick(c.Tops)
 			o.PL = abs.TopPayloads[rng.Intn(len(abs.TopPayloads))]
-			o.G = pick(c.NHG)
 			switch g := rng.Intn(8); {
 			case g < 3:
 				o.GNI = nis[rng.Intn(len(nis))]
 			case g == 3 && rng.Intn(5) == 0:
 				o.GNI = "nosuchni"
 			}
+			tni := o.GNI
+			if tni == "" {
+				tni = o.NI
+			}
+			o.G = aware(haveNHG[tni], c.NHG)
 		}
 		if o.Typ == "DELETE" {
 			o.PL, o.NHs, o.BK, o.G, o.GNI = "", []string{}, "", "", ""
+		} else if o.Kind == "nh" {
+			haveNH[o.NI] = append(haveNH[o.NI], o.Key)
+		} else if o.Kind == "nhg" {
+			haveNHG[o.NI] = append(haveNHG[o.NI], o.Key)
 		}
 		if rng.Intn(100) < c.BadPct {
 			cs := abs.BadClasses(o.Kind, o.Typ)
